@@ -31,6 +31,12 @@ CREATABLE = {
     'BatteryDescriptor': ('MdsDescriptor',),
 }
 
+DELETABLE = ('NumericMetricDescriptor', 'StringMetricDescriptor', 'EnumStringMetricDescriptor', 'ChannelDescriptor',
+             'VmdDescriptor', 'AlertConditionDescriptor', 'AlertSignalDescriptor', 'LimitAlertConditionDescriptor',
+             'BatteryDescriptor', 'RealTimeSampleArrayMetricDescriptor', 'PatientContextDescriptor',
+             'LocationContextDescriptor', 'EnsembleContextDescriptor', 'WorkflowContextDescriptor',
+             'OperatorContextDescriptor', 'MeansContextDescriptor')
+
 _mdib_bytes = {}
 
 
@@ -275,12 +281,19 @@ class Gen:
                         continue
                 else:
                     tname = rng.choice(list(CREATABLE))
+                    updated_here = {st['h'] for st in steps if st['a'] == 'update'}
+                    parents_here = {st['parent'] for st in steps if st['a'] == 'create'}
                     parents = self._descr_candidates(
-                        lambda d: d.NODETYPE.localname in CREATABLE[tname] and d.Handle not in touched)
-                    # also allow a parent created in this very transaction
+                        lambda d: d.NODETYPE.localname in CREATABLE[tname]
+                        and (d.Handle not in touched or d.Handle in updated_here))
                     if not parents:
                         continue
                     parent = rng.choice(parents).Handle
+                    # often: a second child under the same parent, or a child under a descriptor that this very
+                    # transaction updates (the parent's version is then raised more than once by one transaction)
+                    pref = [x.Handle for x in parents if x.Handle in updated_here or x.Handle in parents_here]
+                    if pref and rng.random() < 0.6:
+                        parent = rng.choice(pref)
                     self.created += 1
                     h = f'new{self.created}.{tname[:4].lower()}'
                 step = self._mk_create_step(tname, h, parent)
@@ -298,12 +311,14 @@ class Gen:
                         touched.add(ch)
                         steps.append(cstep)
             else:  # delete
+                updated_here = {st['h'] for st in steps if st['a'] == 'update'}
                 cands = self._descr_candidates(
-                    lambda d: d.Handle not in touched and d.NODETYPE.localname in
-                    ('NumericMetricDescriptor', 'StringMetricDescriptor', 'EnumStringMetricDescriptor',
-                     'ChannelDescriptor', 'VmdDescriptor', 'AlertConditionDescriptor', 'AlertSignalDescriptor',
-                     'LimitAlertConditionDescriptor', 'BatteryDescriptor', 'RealTimeSampleArrayMetricDescriptor')
-                    and d.parent_handle not in touched)
+                    lambda d: d.Handle not in touched and d.NODETYPE.localname in DELETABLE
+                    and (d.parent_handle not in touched or d.parent_handle in updated_here))
+                ctx_cands = [d for d in cands if d.is_context_descriptor
+                             and len(m.context_states.descriptor_handle.get(d.Handle, [])) >= 2]
+                if ctx_cands and rng.random() < 0.5:
+                    cands = ctx_cands  # a context descriptor that owns several states
                 if not cands:
                     continue
                 d = rng.choice(cands)
@@ -409,6 +424,10 @@ class Gen:
                             self.removed_handles.append((st['type'], st['h'], st['parent']))
             self.n += 1
             op['id'] = self.n
+            if self.validate:
+                # the executor re-validates what it is about to commit: under concurrent writers an operation may
+                # meet another base state than the model had, and an application would not commit invalid content
+                op['validate'] = True
             return op
         return None
 
@@ -421,6 +440,7 @@ class Env:
         self.cache = cache  # handle -> entity kept from an earlier operation (None: never use stale entities)
         self.crash_at = crash_at
         self.stale_used = 0
+        self.validate = False
         self.stale_outdated = 0
         self.j = 0
         self.on_handout = on_handout  # callable(kind, obj) for isolation probes
@@ -442,6 +462,20 @@ class Env:
         if self.on_handout is not None:
             self.on_handout(kind, obj)
 
+    def check_valid(self, mdib, obj):
+        """(only for operations generated with validation) refuse to commit schema-invalid content"""
+        if not self.validate or obj is None:
+            return
+        try:
+            if hasattr(obj, 'is_state_container') and obj.is_state_container:
+                err = xsd.validate_state(obj, mdib.nsmapper)
+            else:
+                err = xsd.validate_descriptor(obj, mdib.nsmapper)
+        except Exception as ex:  # noqa: BLE001
+            err = repr(ex)
+        if err is not None:
+            raise ValueError(f'harness: content would be schema-invalid on this base state: {str(err)[:200]}')
+
 
 _REJECT = None
 
@@ -458,6 +492,7 @@ def apply_op(mdib, op, env: Env | None = None):
     """execute one generated operation against a ProviderMdib. Raises OpRejected if the API refuses it,
     InjectedCrash if a crash point fired; any other exception propagates (commit failure)."""
     env = env or Env()
+    env.validate = bool(op.get('validate'))
     k = op['k']
     rej = _reject_types()
     in_body = [True]
@@ -524,6 +559,7 @@ def _apply_state(mdib, op, env, in_body):
                 ent = _get_ent(mdib, it['h'], it.get('stale'), env)
                 env.handout('entity', ent.state)
                 apply_muts(ent.state, it['muts'])
+                env.check_valid(mdib, ent.state)
                 ents.append(ent)
                 env.step()
             if len(ents) == 1:
@@ -537,6 +573,7 @@ def _apply_state(mdib, op, env, in_body):
                 env.handout('tx_state', st)
                 env.step()
                 apply_muts(st, it['muts'])
+                env.check_valid(mdib, st)
                 env.step()
         env.before_commit(mgr)
         in_body[0] = False
@@ -563,6 +600,7 @@ def _apply_context(mdib, op, env, in_body):
                         st.ContextAssociation = pm_types.ContextAssociation(s['assoc'])
                 env.handout('entity', st)
                 apply_muts(st, s['muts'])
+                env.check_valid(mdib, st)
                 modified.append(s['h'])
                 env.step()
             mgr.write_entity(ent, modified)
@@ -572,12 +610,14 @@ def _apply_context(mdib, op, env, in_body):
                 if s['a'] == 'new':
                     st = mgr.mk_context_state(s['d'], s['h'], set_associated=bool(s.get('assoc')))
                     apply_muts(st, s['muts'])
+                    env.check_valid(mdib, st)
                 elif s['a'] == 'upd':
                     st = mgr.get_context_state(s['h'])
                     env.handout('tx_state', st)
                     if s.get('assoc'):
                         st.ContextAssociation = pm_types.ContextAssociation(s['assoc'])
                     apply_muts(st, s['muts'])
+                    env.check_valid(mdib, st)
                 else:
                     mgr.disassociate_all(s['d'])
                 env.step()
@@ -596,32 +636,40 @@ def _apply_descr(mdib, op, env, in_body):
                     ent = _get_ent(mdib, s['h'], s.get('stale'), env)
                     env.handout('entity', ent.descriptor)
                     apply_muts(ent.descriptor, s['muts'])
+                    env.check_valid(mdib, ent.descriptor)
                     if s.get('with_state') and not ent.is_multi_state:
                         apply_muts(ent.state, s['state_muts'])
+                        env.check_valid(mdib, ent.state)
                     mgr.write_entity(ent)
                 else:
                     d = mgr.get_descriptor(s['h'])
                     env.handout('tx_descr', d)
                     apply_muts(d, s['muts'])
+                    env.check_valid(mdib, d)
                     if s.get('with_state'):
                         st = mgr.get_state(s['h'])
                         env.handout('tx_state', st)
                         apply_muts(st, s['state_muts'])
+                        env.check_valid(mdib, st)
             elif s['a'] == 'create':
                 if entity:
                     ent = mdib.entities.new_entity(getattr(pm, s['type']), s['h'], s['parent'])
                     apply_muts(ent.descriptor, s['muts'])
+                    env.check_valid(mdib, ent.descriptor)
                     if not ent.is_multi_state:
                         apply_muts(ent.state, s['state_muts'])
+                        env.check_valid(mdib, ent.state)
                     mgr.write_entity(ent)
                 else:
                     cls = mdib.data_model.get_descriptor_container_class(getattr(pm, s['type']))
                     d = cls(s['h'], s['parent'])
                     apply_muts(d, s['muts'])
+                    env.check_valid(mdib, d)
                     st = None
                     if s.get('with_state', True):
                         st = mdib.data_model.mk_state_container(d)
                         apply_muts(st, s['state_muts'])
+                        env.check_valid(mdib, st)
                     mgr.add_descriptor(d, state_container=st)
             elif s['a'] == 'delete':
                 if entity:
